@@ -196,6 +196,17 @@ def _tuple_elements(f, expr, depth=0):
     return None
 
 
+def as_generator_cm(project, func):
+    """*func* if it is a generator; if it returns an instance of a project context-manager class instead, the equivalent generator
+    (sa.objinline.cm_class_as_generator); else *func* unchanged."""
+    from sa import objinline
+    try:
+        g = objinline.cm_class_as_generator(project, func, lambda node: class_methods_of(project, func, node))
+    except Exception:
+        g = None
+    return g or func
+
+
 def discover_stages(project):
     """Every function containing ``<mp>.Process(target=F, args=(...))``."""
     stages = []
